@@ -60,6 +60,9 @@ Do(a) ==
        [] a.op = "clone" ->          \* copies keep solution and objective together
             /\ pop' = Append(pop, pop[a.i]) /\ res' = R("ok", 0)
             /\ UNCHANGED <<best, arch, shownK, evals, calls>>
+       [] a.op = "clone_from" ->     \* pop[i].clone_from(&pop[s]): the target becomes an exact copy
+            /\ pop' = [pop EXCEPT ![a.i] = pop[a.s]] /\ res' = R("ok", 0)
+            /\ UNCHANGED <<best, arch, shownK, evals, calls>>
        [] a.op = "remove" ->
             /\ pop' = SubSeq(pop, 1, a.i - 1) \o SubSeq(pop, a.i + 1, Len(pop)) /\ res' = R("ok", 0)
             /\ UNCHANGED <<best, arch, shownK, evals, calls>>
@@ -126,6 +129,7 @@ Acts ==
    THEN {A("new", 0, s) : s \in Sols} \cup {A("new_unevaluated", 0, s) : s \in Sols}
         \cup {A("clone", i, 0) : i \in Idx}
    ELSE {})
+  \cup {A("clone_from", x, y) : x \in Idx, y \in Idx}
   \cup {A("remove", i, 0) : i \in Idx}
   \cup {A("solution_mut", i, s) : i \in Idx, s \in Sols}
   \cup {A("solution_mut_peek", i, 0) : i \in Idx}
@@ -165,6 +169,7 @@ MutableAccessClears ==
 \* C05: copying / reading keep solution and objective together and change nothing else
 CopyKeepsPair ==
   [][ /\ act'.op = "clone" => pop' = Append(pop, pop[act'.i])
+      /\ act'.op = "clone_from" => pop'[act'.i] = pop[act'.s] /\ Len(pop') = Len(pop)
       /\ act'.op = "as_solutions" => pop' = pop ]_mvars
 
 \* C06: an evaluation step keeps order and solutions, evaluates everyone with f, counts exactly |pop|
